@@ -1,7 +1,7 @@
 (* C10 -- reference-counted and pooled objects are released exactly once, never early.
    Property theorems only: each is closed by [exact] of a lemma proved in Conc/. *)
 From Coq Require Import List Arith Bool NArith.
-From Muscle Require Import Gen.Consts Conc.Pool Conc.PoolProofs Conc.RefCnt Conc.RefInv Conc.RefActs Conc.RefProofs Conc.RefFork Conc.RefPool Conc.RefMore.
+From Muscle Require Import Gen.Consts Conc.Pool Conc.PoolProofs Conc.RefCnt Conc.RefInv Conc.RefActs Conc.RefProofs Conc.RefFork Conc.RefPool Conc.RefMore Conc.RefAcyc.
 Import ListNotations.
 
 (* ---- the counting protocol: any number of threads, any programs, every reachable state ---- *)
@@ -92,6 +92,29 @@ Theorem C10_fresh_single_owner : forall N K s0 s t o, inv1 K s0 -> progs_ok s0 -
 Proof. exact fresh_single_owner. Qed.
 Print Assumptions C10_fresh_single_owner.
 
+(* ---- no leaks: the reference graph stays acyclic, and an acyclic graph cannot keep itself alive ---- *)
+
+Theorem C10_acyclic_reachable : forall N K s0 s, inv1 K s0 -> progs_ok s0 -> acyclic s0 -> reachable N K s0 s -> acyclic s.
+Proof. exact reachable_acyclic. Qed.
+Print Assumptions C10_acyclic_reachable.
+
+Theorem C10_leak_free : forall K s, inv1 K s -> acyclic s -> quiescent s ->
+  (forall o, is_live (hobj s o) = true -> 1 <= o_cnt (hobj s o)) ->
+  forall o, is_live (hobj s o) = false.
+Proof. exact leak_free. Qed.
+Print Assumptions C10_leak_free.
+
+Theorem C10_no_leak : forall N K max stksize progs s, progs_ok (init_state max stksize progs) ->
+  reachable N K (init_state max stksize progs) s -> quiescent s ->
+  (forall o, is_live (hobj s o) = true -> 1 <= o_cnt (hobj s o)) ->
+  forall o, is_live (hobj s o) = false.
+Proof. exact no_leak. Qed.
+Print Assumptions C10_no_leak.
+
+Theorem C10_fork_preserves_acyclic : forall s progs, acyclic s -> acyclic (fork_state s progs).
+Proof. exact fork_acyclic. Qed.
+Print Assumptions C10_fork_preserves_acyclic.
+
 (* ---- heap states and pool bookkeeping together, in every reachable state ---- *)
 
 Theorem C10_pool_inv : forall N K s0 s, 1 <= N -> inv1 K s0 -> plink N s0 -> progs_ok s0 -> reachable N K s0 s ->
@@ -140,6 +163,13 @@ Example C10_demo_reachable :
   inv1 2 s0 /\ progs_ok s0 /\ reachable 2 2 s0 s /\
   2 <= length (s_heap s) /\ o_cnt (hobj s 1) = 2 /\ existsb (fun ob => 1 <=? o_deaths ob) (s_heap s) = true.
 Proof. exact demo_reachable. Qed.
+
+Example C10_leak_demo :
+  let s0 := init_state 0 4 [leak_demo_prog] in
+  let s := fst (run_sched 2 2 s0 (repeat 0 60)) in
+  progs_ok s0 /\ reachable 2 2 s0 s /\ quiescent s /\ 3 <= length (s_heap s) /\
+  forallb (fun ob => negb (is_live ob)) (s_heap s) = true.
+Proof. exact leak_demo. Qed.
 
 Example C10_repaired_order_fine :
   existsb ev_is_bad (snd (run_sched 1 2 (init_state 0 4 [f11_prog true]) (repeat 0 40))) = false.
